@@ -48,11 +48,13 @@ def _stream_len(c):
 def cases(tier, seed):
     corp = _corpus()
     rnd = random.Random('c13/%d' % seed)
-    endings = ['fin', 'rst', 'silence']
+    endings = ['fin', 'rst', 'silence', 'chatter']
     for name in NAMES:
         n = _stream_len(corp[name])
         for L in range(0, n + 1):
-            ends = endings if tier == 'thorough' else [endings[(L + seed) % 3]]
+            ends = endings if tier == 'thorough' else [endings[(L + seed) % 4]]
+            if L == n and 'chatter' not in ends:
+                ends = ends + ['chatter']
             for e in ends:
                 # the partial PDU before the cut arrives in one piece or dribbles in (header
                 # first, then a bit of the body, then nothing)
@@ -189,10 +191,26 @@ def run_case(case):
                 elif ending == 'rst':
                     rig.peer_rst()
             rig.settle(extra=busy)
-            rig.advance(ARTIM + 1.0)
+            if ending == 'chatter':
+                # the peer does not close but keeps talking: association requests and junk every
+                # 3 s.  Where ARTIM is armed it is a deadline, not an inactivity timer.
+                chat = [rc.enc_assoc_rq(), rc.enc_pdu(0x0B, b'\0\0'), rc.enc_pdata([(1, 3, b'\0\0')])]
+                for i in range(4):
+                    rig.advance(3.0)
+                    if rig.prov_sock is not None and not rig.sock_gone():
+                        rig.peer_bytes(chat[(i + (cut or 0)) % 3])
+                    rig.settle(extra=busy)
+                rig.advance(1.0)
+            else:
+                rig.advance(ARTIM + 1.0)
             rig.settle(extra=busy)
             must_end = ending in ('fin', 'rst') or armed or gone_at_cut or \
                 (rig.prov_sock is not None and rig.prov_sock.rx.fin)
+            if ending == 'chatter' and not gone_at_cut:
+                # only in Sta13 is ARTIM a fixed deadline whatever the peer sends (AA-6/AA-7 do
+                # not touch it); in Sta2 an unexpected PDU legitimately restarts it (AA-1) and
+                # in the other states the table answers the chatter (C05's subject)
+                must_end = state_at_cut == 'Sta13'
             if rig.prov_sock is None:
                 must_end = False        # never connected (requestor that has not started)
             if case.get('connect') and associated:
